@@ -50,6 +50,51 @@ def add_pragmas(src, rng):
     return "\n".join(lines)
 
 
+MARK = "# pragma: no cover"
+
+
+def handler_pragma(src, rng):
+    """Put the no-cover marker on exactly one handler of a try statement that has at least two; None if there is none."""
+    import ast
+
+    tries = [n for n in ast.walk(ast.parse(src)) if isinstance(n, ast.Try) and len(n.handlers) >= 2]
+    if not tries:
+        return None
+    t = rng.choice(tries)
+    h = rng.choice(t.handlers)
+    lines = src.split("\n")
+    lines[h.lineno - 1] += "  " + MARK
+    return "\n".join(lines)
+
+
+def must_cover_lines(src):
+    """Independent reading of the marker semantics for except handlers: a marker on the header of ONE handler excludes
+    that handler only.  Returns the body lines of unmarked sibling handlers (not nested in a marked handler), provided
+    every marker of the file sits on a handler header (otherwise the empty set: nothing is claimed)."""
+    import ast
+
+    lines = src.split("\n")
+    marked = {i + 1 for i, ln in enumerate(lines) if MARK in ln or "# pynguin: no cover" in ln}
+    if not marked:
+        return set()
+    tree = ast.parse(src)
+    handlers = [h for n in ast.walk(tree) if isinstance(n, ast.Try) for h in n.handlers]
+    if not marked <= {h.lineno for h in handlers}:
+        return set()
+    spans = [(h.lineno, h.end_lineno) for h in handlers if h.lineno in marked]
+    res = set()
+    for n in ast.walk(tree):
+        if isinstance(n, ast.Try) and any(h.lineno in marked for h in n.handlers):
+            if any(a <= n.lineno <= b and (a, b) != (h.lineno, h.end_lineno) for a, b in spans for h in n.handlers if h.lineno in marked):
+                continue
+            if any(a < n.lineno <= b for a, b in spans if not any(h.lineno == a for h in n.handlers)):
+                continue      # the whole try lies inside another marked handler
+            for h in n.handlers:
+                if h.lineno not in marked:
+                    res |= set(range(h.body[0].lineno, h.body[-1].end_lineno + 1))
+    return res
+
+
 def _work(job):
     n, src, path, specs = job
     reload_leg = n % 3 == 0      # every third program (incl. corpus entries) is also "reloaded"
@@ -104,6 +149,12 @@ def k_leg(sp, plain, code, path, res, c, tag):
         if exl is None:
             res["fails"].append(["harness:no-ast", "module AST not available", None])
             return None
+        with open(path) as _f:
+            wrongly = sorted(set(exl) & must_cover_lines(_f.read()))
+        if wrongly:
+            res["fails"].append([f"{tag}exclusion:sibling-handler-excluded",
+                                 f"code object {d['name']}: lines {wrongly} are bodies of except handlers WITHOUT a no-cover marker, but "
+                                 f"should_cover_line rejects them because a sibling handler is marked", None])
         for b in d["blocks"]:
             if not b["live"]:
                 dead += 1
@@ -174,6 +225,8 @@ def s_leg(sp, plain, code, path, specs, res, instrumented):
             if ins.positions is not None and ins.positions.lineno is not None:
                 by_line.setdefault(ins.positions.lineno, set()).add(ins.opname)
         left_out |= {ln for ln, ops in by_line.items() if ops <= {"RESUME", "END_FOR"}}
+    with open(path) as _f:
+        left_out -= must_cover_lines(_f.read())   # not exempt, whatever should_cover_line says
     seq = I.sequence_of(specs)
     truths = I.monitored_sequence(plain, path, seq, ("LINE",))
     runs = I.traced_sequence(sp, code, path, seq)
@@ -376,9 +429,13 @@ def run(ctx: vlib.Ctx):
         progs.append((s, []))
     while len(progs) < n_prog:
         src, used = G.gen_module(ctx.rng)
-        if ctx.rng.random() < 0.3:
+        c = ctx.rng.random()
+        if c < 0.3:
             src = add_pragmas(src, ctx.rng)
             ctx.count("with-pragma")
+        elif c < 0.6 and (marked := handler_pragma(src, ctx.rng)) is not None:
+            src = marked
+            ctx.count("with-handler-pragma")
         progs.append((src, []))
         for u in used:
             ctx.count("stmt:" + u)
